@@ -46,7 +46,6 @@ package c10
 
 import (
 	"fmt"
-	"strings"
 	"testing"
 
 	"pgregory.net/rapid"
@@ -59,12 +58,13 @@ import (
 func TestMain(m *testing.M) {
 	evid.Tests(
 		evid.Spec{Name: "TestReplay", Kind: "plain", QuickShards: 1, ThoroughShards: 1},
+		evid.Spec{Name: "TestKnownFindings", Kind: "plain", QuickShards: 1, ThoroughShards: 1},
 		evid.Spec{Name: "TestExhaustiveSmall", Kind: "plain", QuickShards: 16, ThoroughShards: 16, TimeoutS: 3000},
-		evid.Spec{Name: "TestPropFind", Kind: "rapid", Quick: 48000, Thorough: 1600000, QuickShards: 8, ThoroughShards: 16},
-		evid.Spec{Name: "TestPropStrand", Kind: "rapid", Quick: 24000, Thorough: 800000, QuickShards: 4, ThoroughShards: 16},
-		evid.Spec{Name: "TestPropIndel", Kind: "rapid", Quick: 32000, Thorough: 1200000, QuickShards: 8, ThoroughShards: 16},
-		evid.Spec{Name: "TestPropLocate", Kind: "rapid", Quick: 16000, Thorough: 600000, QuickShards: 4, ThoroughShards: 16},
-		evid.Spec{Name: "TestPropReuse", Kind: "rapid", Quick: 6000, Thorough: 200000, QuickShards: 4, ThoroughShards: 16},
+		evid.Spec{Name: "TestPropFind", Kind: "rapid", Quick: 120000, Thorough: 3000000, QuickShards: 8, ThoroughShards: 16},
+		evid.Spec{Name: "TestPropStrand", Kind: "rapid", Quick: 48000, Thorough: 1200000, QuickShards: 4, ThoroughShards: 16},
+		evid.Spec{Name: "TestPropIndel", Kind: "rapid", Quick: 80000, Thorough: 2400000, QuickShards: 8, ThoroughShards: 16},
+		evid.Spec{Name: "TestPropLocate", Kind: "rapid", Quick: 40000, Thorough: 1200000, QuickShards: 4, ThoroughShards: 16},
+		evid.Spec{Name: "TestPropReuse", Kind: "rapid", Quick: 12000, Thorough: 300000, QuickShards: 4, ThoroughShards: 16},
 	)
 	evid.Note("rule", "Patterns are drawn from the documented grammar (IUPAC letters, [..] classes, !x, x#; 1..63 positions, 64 excluded as known finding) together with a template they match; sequences are built by planting mutated copies of the template (at offset 0, at the very end, adjacent, overlapping, truncated) between random flanks, the number of edits being drawn around the budget (0..4); windows (begin,length) are drawn around the planted copy. Oracles: brute-force Hamming scan with obligatory positions (find, strand, reuse), independent reverse-complement of the parsed pattern (strand), Sellers / full-matrix edit-distance DP (indel, locate). Exhaustive part: every pattern of 1..3 (thorough: 1..4) letters over ACGTN x every sequence over acgt up to length 5 (thorough 6) x budgets 0..2 x {substitutions, indels}. Non-trivial = the closest window/substring of the searched region is at distance budget-1..budget+1 from the pattern (find, indel, exhaustive); strand: the pattern differs from its reverse complement and at least one match exists; locate: best distance 1..4; reuse: some step reuses the buffer for a shorter sequence than its predecessor. Distinct = hash of the whole case.")
 	evid.Main(m, "C10")
@@ -327,6 +327,9 @@ func genIndel(t *rapid.T) indelCase {
 	pattern, template := genPattern(t, patOpts{pure: pure, noOblig: true, minPos: 2, lowComplx: low})
 	budget = min(budget, len(template)-1)
 	seq, at := plant(t, template, budget, "sid", maxFlank(t), low)
+	if len(seq) <= len(template) && rapid.IntRange(0, 3).Draw(t, "keep_short") != 0 {
+		seq += gen.Seq(t, "pad", len(template)+1-len(seq)+rapid.IntRange(0, 3).Draw(t, "padlen"), gen.ACGT)
+	}
 	begin, length := drawWindow(t, len(seq), len(template), at)
 	realign := pure
 	if pure && len(seq) <= len(template) {
@@ -496,5 +499,4 @@ func TestExhaustiveSmall(t *testing.T) {
 		}
 	}
 	evid.Exhaustive(fmt.Sprintf("every pattern of 1..%d letters over ACGTN x every sequence over acgt of length 0..%d x budgets 0..2, whole-sequence window: substitutions only (find) and, for 1 <= budget < pattern length, indels (indel)", maxPat, maxSeq))
-	_ = strings.ToUpper
 }
